@@ -89,11 +89,11 @@ theorem C11_fails_asis_unacked (c : VCfg) (hc : c.LiveGt ∧ c.WritePath) :
     readKV (crashWitness c) [1] maxU64 = .val [1, 1, 1, 1] ∧
     readKV (gc c (crashWitness c) 0 0).1 [1] maxU64 = .val [2, 2, 2, 2] ∧
     readKV (reopen (gc c (crashWitness c) 0 0).1) [1] maxU64 = .val [2, 2, 2, 2] := by
-  obtain ⟨⟨h1, h2, h3⟩, h4, h5⟩ := hc
+  obtain ⟨⟨h1, h2, h3, h6⟩, h4, h5⟩ := hc
   cases c with
-  | mk t r f o b p =>
-    simp only at h1 h2 h3 h4 h5
-    subst h1 h2 h3 h4 h5
+  | mk t r f o b p ml =>
+    simp only at h1 h2 h3 h4 h5 h6
+    subst h1 h2 h3 h4 h5 h6
     cases p <;> decide
 
 end NoKV.Props.C11
